@@ -3,9 +3,14 @@ EXTENDS DropSem, Json
 \* Simulation: a few random choices per action class and step instead of all of them, so that the
 \* action classes are picked about equally often (every operator depends on the state so that TLC does
 \* not cache it as a constant).
-SimKeys(x)   == LET n == RandomElement(1..MaxBatch)
-                IN {<<RandomElement(Series), RandomElement(Times)>> : j \in 1..n}
-SimWrites    == {<<RandomElement(Insts), SimKeys(nv + j)>> : j \in 1..2}
+\* half of the written rows go to a series the instance already knows (live or dropped): out-of-order rows and
+\* writes to a dropped series become frequent
+KnownSeries(i) == wd.idx[i] \cup {d.r.s : d \in {x \in dropped : x.i = i}}
+SimSeries(i, x) == IF KnownSeries(i) # {} /\ RandomElement(1..2) = 1 THEN RandomElement(KnownSeries(i)) ELSE RandomElement(Series)
+SimKeys(i, x) == LET n == RandomElement(1..MaxBatch)
+                 IN {<<SimSeries(i, x + j), RandomElement(Times)>> : j \in 1..n} \ Occupied(i)
+SimWrite(x)  == LET i == RandomElement(Insts) IN <<i, SimKeys(i, x)>>
+SimWrites    == {w \in {SimWrite(nv + j) : j \in 1..2} : w[2] # {}}
 Existing     == {i \in Insts : Usable(wd, i) /\ wd.ex[i]}
 SimDrops     == IF Existing = {} THEN {} ELSE {<<RandomElement(Existing), RandomElement(Preds)>> : j \in 1..2}
 SimInst      == IF Existing = {} THEN {} ELSE {RandomElement(Existing)}
